@@ -271,6 +271,14 @@ def lint_total(ck, fi, extra_safe=()):
             elif isinstance(t, (ast.Tuple, ast.List)) and isinstance(x.value, (ast.Tuple, ast.List)):
                 n += 1
                 ck.ob("C43.total", fi, x, len(t.elts) == len(x.value.elts), "literal tuple unpack of equal arity")
+            elif isinstance(t, (ast.Tuple, ast.List)) and isinstance(x.value, ast.Call) and q.call_attr(x.value) in ("groups", "group") and isinstance(x.value.func.value, ast.Name):
+                m = x.value.func.value.id
+                ism, ng = _is_match_obj(ck, fi, m)
+                if not ism or ng is None:
+                    raise AnalysisError("C43.total: unmodelled tuple unpack %s in %s" % (q.unparse(x), fi.qualname))
+                want = ng if q.call_attr(x.value) == "groups" else len(x.value.args)
+                n += 1
+                ck.ob("C43.total", fi, x, want == len(t.elts) and ((m, True) in F or holds(F, "%s is None" % m, False)), "unpacking %s into %d names: the pattern has %d groups and the match is known to have succeeded" % (q.unparse(x.value), len(t.elts), want))
             elif isinstance(t, (ast.Tuple, ast.List)):
                 raise AnalysisError("C43.total: unmodelled tuple unpack %s in %s" % (q.unparse(x), fi.qualname))
             continue
@@ -317,13 +325,13 @@ def lint_total(ck, fi, extra_safe=()):
                 ok = True  # next(it, default) cannot raise StopIteration
             ck.ob("C43.total", fi, c, ok, "next() on _parseparam(';' + line): the generator yields at least once because the text starts with ';'")
             continue
-        if isinstance(c.func, ast.Attribute) and name == "group" and isinstance(c.func.value, ast.Name):
+        if isinstance(c.func, ast.Attribute) and name in ("group", "groups") and isinstance(c.func.value, ast.Name):
             ism, ng = _is_match_obj(ck, fi, c.func.value.id)
             if ism:
                 m = c.func.value.id
-                k = c.args[0].value if c.args and isinstance(c.args[0], ast.Constant) else None
+                ks = [a.value if isinstance(a, ast.Constant) else None for a in c.args]
                 n += 1
-                ck.ob("C43.total", fi, c, ((m, True) in F or holds(F, "%s is None" % m, False)) and isinstance(k, int) and (ng is None or k <= ng), "%s.group(%s) on a match object known to be non-None" % (m, k))
+                ck.ob("C43.total", fi, c, ((m, True) in F or holds(F, "%s is None" % m, False)) and all(isinstance(k, int) and (ng is None or k <= ng) for k in ks), "%s.%s(%s) on a match object known to be non-None" % (m, name, ", ".join(map(str, ks))))
                 continue
         if isinstance(c.func, ast.Attribute) and name == "pop" and len(c.args) == 1 and q.is_const(c.args[0], 0):
             # list.pop(0): the list was seeded with a literal first element (the 'Dummy' of decode_params)
@@ -406,6 +414,7 @@ def rule_ip(ck):
                 nul = True
         ck.ob("C43.ip", fi, c, nul, "strings containing NUL are rejected before getaddrinfo (it truncates at NUL)")
         flags = q.arg(c, 5, "flags")
+        flags = expand(fi, flags) if flags is not None else None
         ck.ob("C43.ip", fi, c, flags is not None and any(q.dotted(x) in ("socket.AI_NUMERICHOST", "AI_NUMERICHOST") for x in ast.walk(flags)), "getaddrinfo is given AI_NUMERICHOST (host names are not resolved, hence rejected)")
         ck.ob("C43.ip", fi, c, c.args and q.dotted(c.args[0]) == ip, "the address checked is the argument itself")
         for exc in ("socket.gaierror", "UnicodeError"):
@@ -486,8 +495,12 @@ def rule_misc(ck):
         binds = [a.value for a in q.walk_body(uc.node) if isinstance(a, ast.Assign) and qv in q.assigned_paths(a)]
         ck.ob("C43.url-concat", uc, c, bool(binds) and all(isinstance(b, ast.Call) and q.call_attr(b) in ("parse_qsl",) and b.args and pu in q.names_in(b.args[0]) for b in binds), "the new query starts from the pairs parsed out of the existing query")
         exts = [x for x in q.walk_body(uc.node) if isinstance(x, ast.Call) and isinstance(x.func, ast.Attribute) and q.dotted(x.func.value) == qv]
+        from ..x_exact import derive
         for x in exts:
-            ck.ob("C43.url-concat", uc, x, x.func.attr in ("extend", "append") and args_param(uc) in q.names_in(x), "the arguments are appended after the existing pairs (%s.%s)" % (qv, x.func.attr))
+            if x.func.attr not in ("extend", "append", "__iadd__") or not x.args:
+                raise AnalysisError("url_concat: unrecognised operation %s on the parsed query" % q.unparse(x.func))
+            steps = derive(uc, x.args[0], [args_param(uc)], passthrough={"items": -1, "list": 0, "tuple": 0})
+            ck.ob("C43.url-concat", uc, x, any(s_.kind == "source" and s_.note != "literal" for s_ in steps), "the arguments are appended after the existing pairs (%s.%s)" % (qv, x.func.attr))
         ck.floor("C43.url-concat", len(exts), 1, "extensions of the parsed query")
 
     # _encode_header: a valueless parameter is exactly v is None (0 / '' are values)
